@@ -251,6 +251,57 @@ def p3_own_src(k: int):
     cover('ok')
 
 
+NEST_SRC = 'class K:\n    def f(self):\n        if a:\n            pass  # c\nx = 2\ntry:\n    y = 1\nexcept E:\n    z = 3  # cz\n'
+
+
+def p4_comment_then_cutput(q: int, k: int, anc: int, ti: int):
+    """[queries on all nodes] -> put_line_comment(text) -> read back -> own_src of an ancestor shows it -> cut that ancestor and put it back: structure as before"""
+    from harness.c02 import QKINDS, prequery
+    TX = ['note that is longer', 'n', 'same']
+    assume(0 <= q < len(QKINDS) and 0 <= ti <= 2 and 0 <= anc <= 3)
+    qk = QKINDS[pc.pin(q, 0, len(QKINDS) - 1)]
+    text = TX[pc.pin(ti, 0, 2)]
+    with pc.untraced():
+        root = FST(NEST_SRC, 'exec')
+        pc.reset_globals()
+        stmts = [n.f for n in ast.walk(root.a) if isinstance(n, ast.stmt)]
+        struct0 = ast.dump(ast.parse(NEST_SRC))
+    prequery(root, qk)
+    assume(0 <= k < len(stmts))
+    tgt = stmts[pc.pin(k, 0, len(stmts) - 1)]
+    try:
+        tgt.put_line_comment(text)
+    except pc.EXPECTED_RAISES:
+        cover('refused')
+        return
+    got = tgt.get_line_comment()
+    with pc.untraced():
+        check(pc.R(got) == text, 'line_comment.does_not_read_back', (type(tgt.a).__name__, text, pc.R(got)))
+        pc.o_parse(root, 'line_comment.after_put')
+    a_ = tgt
+    for _ in range(pc.pin(anc, 0, 3)):
+        if a_.parent is not None and a_.parent.parent is not None:
+            a_ = a_.parent
+    own = a_.own_src()
+    with pc.untraced():
+        # an enclosing block whose last line is the statement's line includes that line's comment in its own source
+        if a_ is not tgt and pc.R(a_.bloc[2]) == pc.R(tgt.bloc[2]) and isinstance(tgt.a, ast.stmt) and not hasattr(tgt.a, 'body'):
+            check(('# ' + text) in pc.R(own), 'line_comment.ancestor_own_src_lacks_the_comment', (type(a_.a).__name__, text, pc.R(own)))
+    if a_.pfield is not None and a_.pfield.idx is not None and isinstance(a_.a, ast.stmt):
+        par, fld, idx = a_.parent, a_.pfield.name, a_.pfield.idx
+        try:
+            with FST.options(**pc.OPTS):
+                piece = par.get_slice(idx, idx + 1, fld, cut=True)
+                par.put_slice(piece, idx, idx, fld)
+        except pc.EXPECTED_RAISES:
+            cover('cutput.refused')
+            return
+        with pc.untraced():
+            t = pc.o_parse(root, 'line_comment.after_cut_put_back')
+            check(ast.dump(t) == struct0, 'line_comment.cut_put_back_changed_structure', (pc.R(root.src),))
+    cover('ok')
+
+
 FN8 = ['fst.astutil.repr_str_multiline', 'fst.astutil._escape_char']
 CELLS = []
 for _n in (1, 2, 3, 4):
@@ -275,3 +326,6 @@ CELLS.append(Cell('P2.docstr', p2_docstr, 'P', ['fst.fst.FST.put_docstr', 'fst.f
                   budget=900, per_path=60, reset=pc.reset_globals))
 CELLS.append(Cell('P3.own_src', p3_own_src, 'P', ['fst.fst.FST.own_src', 'fst.fst.FST.own_lines'], 'own_src() of every stmt/expr node of a 14-line carrier (finite choice) parsed by CPython',
                   budget=600, per_path=60, reset=pc.reset_globals))
+CELLS.append(Cell('P4.comment_then_cut_put_back', p4_comment_then_cutput, 'P', ['fst.fst_trivia._getput_line_comment', 'fst.fst.FST.own_src', 'fst.fst.FST.get_slice', 'fst.fst.FST.put_slice'],
+                  'carrier with 3 nested blocks and a try/except; pre-query kind, target statement, which ancestor, text (longer/shorter/equal): all symbolic (finite); comment reads back, ancestor own_src shows it, '
+                  'cut + put back of the ancestor restores the structure', budget=900, per_path=90, reset=pc.reset_globals))
